@@ -152,8 +152,13 @@ class UnifiedTypeService:
 
         # Add modern | None syntax if needed
         # Modern Python 3.10+ uses | None syntax without needing Optional import
-        if resolved.is_optional and not python_type.endswith("| None"):
-            python_type = f"{python_type} | None"
+        if resolved.is_optional and not python_type.endswith(("| None", '| None"')):
+            if python_type.startswith('"') and python_type.endswith('"') and python_type.count('"') == 2:
+                # A quoted forward reference cannot be an operand of `|` when the annotation is evaluated
+                # (str | None raises TypeError at import): quote the whole union instead.
+                python_type = f'"{python_type[1:-1]} | None"'
+            else:
+                python_type = f"{python_type} | None"
 
             # DEBUG: Check for malformed type strings
             if python_type.count("[") != python_type.count("]"):
